@@ -129,6 +129,33 @@ def run_property(pm, tier="quick", seed=0, update_baseline=False):
                 own[ob.id] = (c, v)
                 obligations.append(ob)
     results = verify.discharge(obligations, timeout_s=timeout_s) if obligations else {}
+    # E obligations: pyvc on the code EMITTED for the shape corpus (proved for all run-time values, bounded in spec shapes)
+    rep.emitted = None
+    if hasattr(pm, "EMITTED"):
+        try:
+            em = pm.EMITTED(tier, seed)
+            import types as _types
+            for ob in em["obligations"]:
+                own[ob.id] = (_types.SimpleNamespace(qual="emitted"), None)
+                obligations.append(ob)
+            results.update(em["results"])
+            rep.emitted = {k: v for k, v in em.items() if k not in ("obligations", "results")}
+            known_skips = set(load_baseline(pid).get("__skipped__", []))
+            rep.skipped_now = sorted({(pr if "UNMATCHED-OP" in pr else (pr.split(": ", 2)[0] + ": " + pr.split(": ", 2)[1] if pr.count(": ") >= 2 else pr)) for pr in em.get("problems", [])})
+            for pr in em.get("problems", []):
+                if "UNMATCHED-OP" in pr:
+                    # exact structural check with a concrete witness (document + operation): no method of the emitted client issues it
+                    if pr not in known_skips:
+                        oid_ = "emitted:" + pr.replace(" UNMATCHED-OP", "")
+                        rp_ = write_replay(pid, oid_, {"verdict": "native(structural)", "model": {"problem": pr}, "reason": pr}, {"confirmed": True, "detail": pr})
+                        if not _is_known([k for k in load_known() if k.get("property") == pid and k.get("status", "open") == "open"], oid_):
+                            rep.violations.append((oid_, rp_, True))
+                    continue
+                key = pr.split(": ", 2)[0] + ": " + pr.split(": ", 2)[1] if pr.count(": ") >= 2 else pr
+                if key not in known_skips and not update_baseline:
+                    rep.undecided.append(("emitted", pr))
+        except Exception as e:  # noqa
+            rep.faults.append(f"emitted-code verification crashed: {type(e).__name__}: {e}\n{traceback.format_exc()[-800:]}")
     rep.results = results
     # 2. triage -----------------------------------------------------------------------------------
     baseline = load_baseline(pid)
@@ -170,7 +197,7 @@ def run_property(pm, tier="quick", seed=0, update_baseline=False):
             else:
                 # exits may be renumbered by an edit: the clause counts as proved at baseline if it was proved on EVERY exit there
                 stem = oid.split("@")[0] + "@"
-                same_clause = [v_ for k_, v_ in baseline.items() if k_.startswith(stem)]
+                same_clause = [v_ for k_, v_ in baseline.items() if k_.startswith(stem) and isinstance(v_, str)]
                 if baseline.get(oid) == "proved" or (same_clause and all(v_ == "proved" for v_ in same_clause)):
                     rep.violations.append((oid, rp, False))
                 else:
@@ -181,7 +208,7 @@ def run_property(pm, tier="quick", seed=0, update_baseline=False):
             rep.undecided.append((oid, f"solver unknown ({r['reason'][:80]}); baseline={baseline.get(oid, 'n/a')}"))
     # obligations that existed (proved) at baseline but were not generated now: the function left the verified shape
     if baseline and not update_baseline:
-        missing = [k for k, v in baseline.items() if v == "proved" and k not in results and "::cover" not in k]
+        missing = [k for k, v in baseline.items() if v == "proved" and k not in results and "::cover" not in k and k != "__skipped__"]
         for k in missing[:50]:
             rep.undecided.append((k, "obligation of the baseline ledger was not regenerated (function changed shape / left the subset)"))
     # 3. finite exhaustive side checks and bounded stand-ins --------------------------------------------
@@ -225,7 +252,10 @@ def run_property(pm, tier="quick", seed=0, update_baseline=False):
             rep.known_lines.append(f"KNOWN-FINDING: property={pid} {k['id']}: {k['what']}")
     if update_baseline:
         os.makedirs(os.path.join(ROOT, "baseline"), exist_ok=True)
-        json.dump({k: v["status"] for k, v in sorted(results.items())}, open(os.path.join(ROOT, "baseline", f"{pid}.json"), "w"), indent=0, sort_keys=True)
+        led = {k: v["status"] for k, v in sorted(results.items())}
+        if getattr(rep, "skipped_now", None):
+            led["__skipped__"] = rep.skipped_now
+        json.dump(led, open(os.path.join(ROOT, "baseline", f"{pid}.json"), "w"), indent=0, sort_keys=True)
     return finish(pm, rep, obligations)
 
 
@@ -288,6 +318,7 @@ def finish(pm, rep: Report, obligations):
                            if o.kind != "cover" and res[o.id]["status"] != "proved"][:100],
         "undecided": [{"what": a, "why": b} for a, b in rep.undecided][:100],
         "bounded": rep.bounded,
+        "emitted_code": getattr(rep, "emitted", None),
         "known_findings_replayed": rep.known_lines,
         "samples": samples,
         "evaluations": len(res) + extra_total + sum(b.get("evaluations", 0) for b in rep.bounded),
